@@ -78,6 +78,11 @@ def spell(v):
     fv = float(v)
     cands = [base, base, "%e" % fv, "%E" % fv, "%.17g" % fv, "+" + base, "%.3e" % fv, "%.1e" % fv, "%r" % (fv * 1000) + "e-3", "%r" % (fv / 1000) + "e+3",
              "%r" % (fv * 100) + "E-02", "0" + base if not base.startswith(("-", "+")) else base]
+    # NumPy's own spellings (what `print(array)` / `np.array2string` / `str(np.float64)` put on a command line that is
+    # pasted back): trailing-dot mantissas with an exponent (`2.e+01`, `5.e-01`), trailing dots, padded exponents
+    cands += [np.format_float_scientific(fv, trim="."), np.format_float_scientific(fv, trim="."), np.format_float_scientific(fv, trim="0"),
+              np.format_float_scientific(fv, trim="-"), np.format_float_positional(fv, trim="."), np.format_float_scientific(fv, precision=0, trim=".") if fv == float("%.0e" % fv) else base,
+              np.format_float_scientific(fv, trim=".", exp_digits=3)]
     if base.startswith("0."):
         cands.append(base[1:])
     if fv == int(fv) and abs(fv) < 1e15:
